@@ -34,6 +34,9 @@ pub enum Expect {
     QuantityIn { si: String, dim: Dim, unit: Vec<(String, i32, i32)> },
     /// One Err result (any message), never a number.
     Error { why: String },
+    /// Two root expressions in one query, each with its own expectation (reproduction of a failure
+    /// that only shows when one query holds both).
+    Pair { first: Box<Expect>, second: Box<Expect> },
 }
 
 #[derive(Clone, Debug, Serialize, Deserialize)]
@@ -191,44 +194,96 @@ pub fn judge(db: &Db, c: &QCase) -> CaseReport {
         }
     };
     let fail = |sig: &str, why: &str| CaseReport::fail(&c.query, sig, json!({"query": c.query, "expected": c.expect, "got": results_json(&rs), "why": why}));
+    if let Expect::Pair { first, second } = &c.expect {
+        if rs.len() != 2 {
+            return fail("in-one-query-with-another:result-count", "expected two results");
+        }
+        for (exp, r) in [(first, &rs[0]), (second, &rs[1])] {
+            if let Some((sig, why)) = judge_one(exp, r) {
+                return fail(&format!("in-one-query-with-another:{}", sig), &why);
+            }
+        }
+        return CaseReport::pass(&c.query, true, classes);
+    }
     if rs.len() != 1 {
         return fail("result-count", "expected exactly one result");
     }
-    match (&c.expect, &rs[0]) {
-        (Expect::Error { .. }, R::Err { .. }) => {}
-        (Expect::Error { .. }, R::Ok(_)) => return fail("number-instead-of-error", "the reference reports an error, the tool returned a number"),
-        (_, R::Err { .. }) => return fail("error-instead-of-value", "the reference has a value, the tool reported an error"),
-        (_, R::Ok(v)) if !v.canonical => return fail("non-canonical-fraction", "numer()/denom() of the result are not in lowest terms with a positive denominator (this is what --exact prints)"),
-        (Expect::Plain { value }, R::Ok(v)) => {
-            if !v.unit.is_empty() {
-                return fail("unit-on-plain-number", "a plain number came back with a unit");
-            }
-            if v.value != parse_rat(value) {
-                return fail("wrong-value", "value differs from exact arithmetic");
-            }
-        }
-        (Expect::Quantity { si, dim }, R::Ok(v)) | (Expect::QuantityIn { si, dim, .. }, R::Ok(v)) => {
-            if has_zero_power(&v.unit) {
-                return fail("zero-power-entry", "result unit keeps an entry with power 0");
-            }
-            let (tsi, tdim) = match si_of(v, &observed().table) {
-                Some(x) => x,
-                None => return fail("unknown-unit-in-result", "result mentions a unit outside the vocabulary"),
-            };
-            if tdim != *dim {
-                return fail("wrong-dimension", &format!("dimension {:?} != expected {:?}", tdim, dim));
-            }
-            if tsi != parse_rat(si) {
-                return fail("wrong-si-value", &format!("SI value {} != expected {}", tsi, si));
-            }
-            if let Expect::QuantityIn { unit, .. } = &c.expect {
-                if mirror_json(&v.unit) != *unit {
-                    return fail("wrong-display-unit", "result is not expressed in the requested unit");
+    if let Some((sig, why)) = judge_one(&c.expect, &rs[0]) {
+        return fail(&sig, &why);
+    }
+    // one case in eight is evaluated once more in ONE query together with the previous case of this thread
+    // (`(previous) (this)`): what a query keeps between its root expressions (caches, scratch state) must not
+    // make either answer differ from the one it has alone
+    if h % 8 == 2 {
+        let prev = PREVIOUS.with(|p| p.borrow().clone());
+        if let Some(prev) = prev {
+            let q2 = format!("({}) ({})", prev.query, c.query);
+            match run(db, &q2) {
+                Err(p) => return CaseReport::fail(&c.query, format!("panic:{}", panic_site(&p)), json!({"query": q2, "panic": p})),
+                Ok(two) => {
+                    if two.len() != 2 {
+                        let rc = QCase { query: q2.clone(), expect: Expect::Pair { first: Box::new(prev.expect.clone()), second: Box::new(c.expect.clone()) }, nontrivial: true, classes: vec![] };
+                        return CaseReport::fail(&c.query, "in-one-query-with-another:result-count", json!({"query": q2, "got": results_json(&two), "replay_case": rc}));
+                    }
+                    for (i, (exp, r)) in [(&prev.expect, &two[0]), (&c.expect, &two[1])].into_iter().enumerate() {
+                        if let Some((sig, why)) = judge_one(exp, r) {
+                            let rc = QCase { query: q2.clone(), expect: Expect::Pair { first: Box::new(prev.expect.clone()), second: Box::new(c.expect.clone()) }, nontrivial: true, classes: vec![] };
+                            return CaseReport::fail(&c.query, format!("in-one-query-with-another:{}", sig), json!({"query": q2, "result": i, "expected": exp, "got": results_json(&two), "why": why, "replay_case": rc}));
+                        }
+                    }
+                    classes.push("also-in-one-query-with-the-previous-case");
                 }
             }
         }
     }
+    PREVIOUS.with(|p| *p.borrow_mut() = Some(c.clone()));
     CaseReport::pass(&c.query, c.nontrivial, classes)
+}
+
+thread_local! {
+    static PREVIOUS: std::cell::RefCell<Option<QCase>> = std::cell::RefCell::new(None);
+}
+
+/// One result against one expectation; Some((signature, why)) on a mismatch.
+pub fn judge_one(expect: &Expect, r: &R) -> Option<(String, String)> {
+    let bad = |sig: &str, why: &str| Some((sig.to_string(), why.to_string()));
+    match (expect, r) {
+        (Expect::Pair { .. }, _) => bad("malformed-case", "a pair expectation inside a pair"),
+        (Expect::Error { .. }, R::Err { .. }) => None,
+        (Expect::Error { .. }, R::Ok(_)) => bad("number-instead-of-error", "the reference reports an error, the tool returned a number"),
+        (_, R::Err { .. }) => bad("error-instead-of-value", "the reference has a value, the tool reported an error"),
+        (_, R::Ok(v)) if !v.canonical => bad("non-canonical-fraction", "numer()/denom() of the result are not in lowest terms with a positive denominator (this is what --exact prints)"),
+        (Expect::Plain { value }, R::Ok(v)) => {
+            if !v.unit.is_empty() {
+                return bad("unit-on-plain-number", "a plain number came back with a unit");
+            }
+            if v.value != parse_rat(value) {
+                return bad("wrong-value", "value differs from exact arithmetic");
+            }
+            None
+        }
+        (Expect::Quantity { si, dim }, R::Ok(v)) | (Expect::QuantityIn { si, dim, .. }, R::Ok(v)) => {
+            if has_zero_power(&v.unit) {
+                return bad("zero-power-entry", "result unit keeps an entry with power 0");
+            }
+            let (tsi, tdim) = match si_of(v, &observed().table) {
+                Some(x) => x,
+                None => return bad("unknown-unit-in-result", "result mentions a unit outside the vocabulary"),
+            };
+            if tdim != *dim {
+                return bad("wrong-dimension", &format!("dimension {:?} != expected {:?}", tdim, dim));
+            }
+            if tsi != parse_rat(si) {
+                return bad("wrong-si-value", &format!("SI value {} != expected {}", tsi, si));
+            }
+            if let Expect::QuantityIn { unit, .. } = expect {
+                if mirror_json(&v.unit) != *unit {
+                    return bad("wrong-display-unit", "result is not expressed in the requested unit");
+                }
+            }
+            None
+        }
+    }
 }
 
 /// Normalised panic site for signatures: message without numbers + file:line.
